@@ -57,6 +57,15 @@ let () =
     | "iszero" -> let x = t_vec t in flag (StaticMat.sm_is_zero sc x)
     | "lt" -> let x = t_vec t in let y = t_vec t in flag (StaticMat.sm_ltb sc b b x y)
     | _ -> "UNSUPPORTED");
+  reg "smr" (fun t -> let op = t_s t in let n = t_i t in let k = t_i t in let m = t_i t in
+    match op with
+    | "mul" -> let x = t_vec t in let y = t_vec t in show_vec (StaticMat.sm_mul sc n k m x y)
+    | "adj" -> let x = t_vec t in show_vec (StaticMat.sm_adjoint sc n m x)
+    | "inner" -> let x = t_vec t in let y = t_vec t in show_vec (StaticMat.sm_inner sc n m x y)
+    | _ -> "UNSUPPORTED");
+  reg "qrsolvec" (fun t -> let ord = t_i t in let m = t_i t in let n = t_i t in let a = t_vec t in let b = t_vec t in
+    let (rs, cs) = if ord <> 0 then (1, m) else (n, 1) in
+    show_vec (Qr.qr_solve sc m n rs cs a b));
   reg "smident" (fun t -> let b = t_i t in let x = t_vec t in let y = t_vec t in let z = t_vec t in let s = t_q t in
     let open StaticMat in
     let mul = sm_mul sc b b b and add = sm_add sc and sub = sm_sub sc and adj = sm_adjoint sc b b in
